@@ -11,7 +11,7 @@ from ..findings import report
 from ..instr.translate import TranslateMonitor
 from ..xlref import evalr
 from ..xlref.parser import ParseError
-from ..xlref.values import outcome_matches
+from ..xlref.values import ERROR_TEXTS, Err, outcome_matches
 from . import c01
 
 ID = 'C05'
@@ -184,7 +184,11 @@ def judge_text(r, tmon, book, addr, text, spec, how, base_out=None):
         outs, ref_valid = None, False
     except (evalr.NoOpinion, evalr.Cycle):
         outs, ref_valid = None, True
-    if outs is not None and out.ok:
+    if outs is not None and out.ok and any(isinstance(o, Err) or (isinstance(o, str) and o in ERROR_TEXTS) for o in outs) and '(' in text[1:]:
+        # an error value produced inside a nest and flowing on through enclosing functions is not this property's claim
+        # (the library hands error values on as texts): the complete-text monitor judges values only
+        r.count('ref_error_value_unjudged')
+    elif outs is not None and out.ok:
         r.count('ref_agreement_checks')
         if not outcome_matches(out, outs, exact=False, empty_text_is_blank=True):
             report(r, ID, None, case, out.brief(), outs, monitor='complete-text-value')
@@ -206,8 +210,13 @@ def base_corpus(rng, n):
     ch = sorted(set(c01.chain_formulas(1)) | set(c01.chain_formulas(2)))
     rng.shuffle(ch)
     fs += ch[:n // 2]
+    from ..gen import exprs
+    g = exprs.Gen(rng)
     while len(fs) < n:
-        fs.append('=' + c01.random_tree(rng, 3, rng.choice('NNTL')))
+        if len(fs) % 3 == 0:
+            fs.append(g.formula(rng.choice('NNTTBD'), rng.choice([2, 3]))[0])      # nests over the whole function set
+        else:
+            fs.append('=' + c01.random_tree(rng, 3, rng.choice('NNTL')))
     return fs[:n]
 
 
